@@ -103,6 +103,7 @@ type tsAn struct {
 	errors map[string]string // package-level `X = NewError("code", …)`
 	sites  map[string]bool   // functions that are sites themselves: never inlined
 	needs  map[string]int    // memo: 1 = consults the throttler, 2 = does not
+	inl    map[string]bool   // functions whose paths were run in place of a call from a site
 	depth  int
 }
 
@@ -429,6 +430,7 @@ func (a *tsAn) inline(ps []tsPath, call *ast.CallExpr, cd *ast.FuncDecl, env *ts
 	if a.depth > 4 {
 		return tsAddAll(ps, tsEv{"?", "call depth"})
 	}
+	a.inl[tsFuncName(cd)] = true
 	cenv := newTsEnv()
 	i := 0
 	if cd.Type.Params != nil {
@@ -860,7 +862,7 @@ func genThrottleSites(c *ctx) *leanFile {
 	l := c.newLean("ThrottleSites", "hub.go", "backend_server.go")
 	hub := c.file("hub.go")
 	bs := c.file("backend_server.go")
-	an := &tsAn{c: c, errors: map[string]string{}, needs: map[string]int{}, sites: map[string]bool{}}
+	an := &tsAn{c: c, errors: map[string]string{}, needs: map[string]int{}, sites: map[string]bool{}, inl: map[string]bool{}}
 	for _, f := range []*ast.File{hub, bs} {
 		if f != nil {
 			an.files = append(an.files, f)
@@ -908,9 +910,9 @@ func genThrottleSites(c *ctx) *leanFile {
 		}
 		l.raw(fmt.Sprintf("def %s : List (List (String × String)) := [\n%s]", s.fact, strings.Join(rows, ",\n")))
 	}
-	// every place of the analysed files where the throttler is consulted: none outside the three sites
-	// (and the functions they call)
-	var others []string
+	// every other place of the analysed files where the throttler is consulted: none outside the three
+	// sites and the functions whose paths are part of theirs
+	others := []string{}
 	for _, f := range an.files {
 		for _, d := range f.Decls {
 			fd, ok := d.(*ast.FuncDecl)
@@ -924,12 +926,12 @@ func genThrottleSites(c *ctx) *leanFile {
 				}
 				return true
 			})
-			for i := 0; i < n; i++ {
+			if n > 0 && !an.sites[tsFuncName(fd)] && !an.inl[tsFuncName(fd)] {
 				others = append(others, tsFuncName(fd))
 			}
 		}
 	}
 	sort.Strings(others)
-	l.strList("checkCallers", others, len(an.files) == 2, "hub.go / backend_server.go not readable")
+	l.strList("strayCheckCallers", others, len(an.files) == 2, "hub.go / backend_server.go not readable")
 	return l
 }
